@@ -352,11 +352,13 @@ func c04Stress(thorough bool) []string {
 		strings.Repeat(" ", big), strings.Repeat("\r\n", big/2), strings.Repeat("\xff", 4096), strings.Repeat("$", 4096), strings.Repeat(`$"`, 4096), strings.Repeat("::", 4096), strings.Repeat(".", 4096),
 		"SELECT x FROM m WHERE y = '"+strings.Repeat("z", big)+"'", strings.Repeat("é", big/2), "SELECT "+strings.Repeat("1.", 4096)+" FROM m",
 	)
-	if thorough {
-		// known finding witness (kept last: it kills the worker)
-		out = append(out, strings.Repeat("(", 2000000))
-	}
 	return out
+}
+
+// c04Fatal lists inputs known to kill the process (open known findings);
+// they run in a child of their own.
+func c04Fatal() []string {
+	return []string{strings.Repeat("(", 2000000)}
 }
 
 func c04Worker(args []string) int {
@@ -408,7 +410,14 @@ func c04Worker(args []string) int {
 		}
 	}
 	hf.Write(hbuf)
-	if shard < 0 {
+	if shard == -2 {
+		for i, text := range c04Fatal() {
+			journal("fatal", i)
+			c04Exercise(text, nil, res, i, "fatal")
+			res.Counters["inputs.fatal-witness-survived"]++
+		}
+	}
+	if shard == -1 {
 		for i, text := range c04Stress(thorough) {
 			journal("stress", i)
 			c04Exercise(text, nil, res, i, "stress")
@@ -437,6 +446,9 @@ func checkC04(c *Ctx) (string, bool, []string) {
 			if idx < len(st) {
 				text = st[idx]
 			}
+		} else if label == "fatal" {
+			r.Inconclusive("a process-fatal input cannot be replayed in-process; run: ./check C04 thorough")
+			return rule, false, assume
 		} else if label == "direct" {
 			var b []byte
 			fmt.Sscanf(replayStr(c, "hex"), "%x", &b)
@@ -474,7 +486,8 @@ func checkC04(c *Ctx) (string, bool, []string) {
 		watchdog = 90 * time.Minute
 	}
 	var kids []*child
-	for s := -1; s < nsh; s++ {
+	first := -2 // -2: known process-fatal witnesses, -1: structured stress, 0..: random shards
+	for s := first; s < nsh; s++ {
 		k := &child{out: filepath.Join(tmp, fmt.Sprintf("out-%d.json", s)), journal: filepath.Join(tmp, fmt.Sprintf("journal-%d", s)), hashes: filepath.Join(tmp, fmt.Sprintf("hashes-%d", s)), stderr: filepath.Join(tmp, fmt.Sprintf("stderr-%d", s)), done: make(chan struct{})}
 		k.cmd = exec.Command(bin, "--worker", "c04", strconv.FormatInt(c.Seed, 10), c.Tier, strconv.Itoa(s), strconv.Itoa(nsh), k.out, k.journal, k.hashes)
 		ef, _ := os.Create(k.stderr)
@@ -508,7 +521,7 @@ func checkC04(c *Ctx) (string, bool, []string) {
 	var maxScan, maxRead float64
 	var maxTok, maxRune int
 	for si, k := range kids {
-		s := si - 1
+		s := si + first
 		var res c04result
 		b, rerr := os.ReadFile(k.out)
 		if rerr == nil {
@@ -537,7 +550,7 @@ func checkC04(c *Ctx) (string, bool, []string) {
 			if strings.Contains(tail, "stack overflow") || strings.Contains(tail, "goroutine stack exceeds") {
 				key = "stack-overflow-deep-nesting"
 			}
-			if key != "" && label == "stress" && r.Known(key, fmt.Sprintf("stress input %d", idx)) {
+			if key != "" && label == "fatal" && r.Known(key, fmt.Sprintf("fatal-witness input %d (2,000,000 nested parentheses)", idx)) {
 				continue
 			}
 			r.Violation("process-fatal", map[string]interface{}{"label": label, "idx": idx, "why": fmt.Sprintf("worker %d died (%v) while parsing case %s/%d", s, k.err, label, idx), "stderr": tail})
